@@ -8,6 +8,7 @@ import json, os, subprocess, sys, glob, shutil, concurrent.futures as cf
 VERIF = '/verif'
 # which check (and optional --only filter) is responsible for which seed
 TARGET = {
+ 'REG-C09-overlap': [('C09', 'OVERLAP_w4')], 'REG-C09-gapfill': [('C09', 'GAP_w16')], 'REG-C01-reader-subbyte': [('C01', 'O2_reader_w4')], 'REG-C01-carry': [('C01', 'O1_packer_w4_2calls')],
  'C01-m1': [('C01', None)], 'C01-m2': [('C15', 'w8'), ('C01', 'w8')],
  'C08-m1': [('C08', None)], 'C08-m2': [('C08', None)], 'C08-m3': [('C08', None)],
  'C09-m1': [('C09', 'OVERLAP_w8'), ('C09', 'OVERLAP_w32')], 'C09-m2': [('C09', 'GAP_w32')],
@@ -21,6 +22,7 @@ TARGET = {
  'C19-m1': [('C19', None)], 'C19-m2': [('C19', None)],
  'C20-m1': [('C20', 'ALIAS')], 'C20-m2': [('C20', 'KMM')], 'C20-m3': [('C20', 'KMM_f32')],
  'C17-m1': [('C17', None)], 'C17-m2': [('C17', None)], 'C11-m1': [('C11', None)], 'C11-m2': [('C11', None)],
+ 'C02-m1': [('C02', None)], 'C02-m2': [('C02', 'LN')],
  'C04-m1': [('C04', 'errprop')], 'C04-m2': [('C04', 'errprop')], 'C05-m1': [('C05', None)], 'C05-m2': [('C05', None)],
 }
 
@@ -60,7 +62,7 @@ def run_seed(sid):
     return res
 
 if __name__ == '__main__':
-    seeds = sys.argv[1:] or sorted(os.path.basename(d) for d in glob.glob(VERIF + '/seeded/C*'))
+    seeds = sys.argv[1:] or sorted(os.path.basename(d) for d in glob.glob(VERIF + '/seeded/[CR]*') if os.path.isdir(d))
     os.makedirs('/tmp/seedwt', exist_ok=True)
     out = json.load(open(VERIF + '/seeded/RESULTS.json')) if os.path.exists(VERIF + '/seeded/RESULTS.json') else {}
     with cf.ThreadPoolExecutor(max_workers=int(os.environ.get('SEED_PAR', '2'))) as ex:
